@@ -28,5 +28,6 @@ def replay(case, ctx):
 TECHNIQUE = "stateful property-based testing of the real Consumer + KafkaClient + codec on a simulated stateful cluster (virtual clock, harness-owned schedule) with a scripted processor (sync / async / raising / stopping / committing inside); Hypothesis draws logs, start positions, scheduler choices, faults, stop/shutdown/crash points; oracles quote the partition log, the coordinator's offset store and the request stream; ddmin-shrunk JSON traces; plus coverage-guided fuzzing of the same trace driver (atheris/libFuzzer mutating Hypothesis' choice sequence; fuzz/traces.py)"
 RULE = (
     "traces over one Consumer (buffer 64..1 MiB+1, optional maximum, retry delays 0.05..30 s, attempt limit 0..5, reset policy none/earliest/latest, auto-commit every n / every ms, with or without a group) on a 1-2 broker simulated cluster; the log holds plain and gzip-wrapper batches in message format 0 or 1 with compaction gaps, null values and messages larger than the buffer, and is appended to / head-truncated while the consumer runs; steps: start (numeric / earliest / latest / committed), deliver or hold a reply, fire a timer, complete an async processor call (ok / fail), commit, stop, shutdown, crash (drop the consumer object and client, keep the cluster), error codes on fetch / offsets / commit / coordinator lookup, connection drops, broker down/up, leader and coordinator moves. oracle: after stop() returns (from any state incl. from inside the processor): no processor invocation, no fetch/offset/commit request issued by that run, no afkak timer left when the client is otherwise idle; the start() Deferred fires exactly once (instrumented: extra firing attempts counted) - by stop with the value stop returned = last processed offset, or with a failure for an unrecoverable error - never while the run continues; stop/start/shutdown never raise when legal; shutdown's Deferred fires exactly once, not before the in-progress processor call ends, and on success with a group the offset store holds the last processed offset; a stopped consumer starts again. non-trivial = stop or shutdown with a processor call pending, a commit in flight, a reply parked behind processing, a retry timer waiting, or from inside the processor; distinct = distinct trace."
+    " Also: shutdown() during the first of several blocks of one reply (script 'shutdownmultiblock'); a restarted consumer must actually consume (log has messages, faults ceased, nothing delivered => violation); a value left in the offset store by a commit the consumer abandoned is not held against shutdown()."
 )
 ASSUMPTIONS = ['simkafka models a 0.10-era broker incl. wrappers returned whole, mid-message cuts at max_bytes and long polls (DESIGN.md 2.4)', 'a reply counts as received only if delivered before the client-side deadline of its request; replies to a previous run or incarnation are attributed by correlation id and run', 'connect latency 5 ms, service latency per reply drawn; retry-delay expectations use the constants documented in afkak/consumer.py (factor 1.20205)']
